@@ -925,7 +925,7 @@ pub fn gen_shape(rng: &mut Rng, depth: usize) -> Shape {
 /// generate hand-written visitors that stop before a map is drained?
 const PARTIAL_VISITORS: bool = true;
 
-const WORDS: &[&str] = &["x", "abc", "a b", " x ", "&amp;", "&lt;b&gt;", "\u{e9}", "&#65;", "true", "12", "", "a", "item", "$text"];
+const WORDS: &[&str] = &["x", "abc", "a b", " x ", "&amp;", "&lt;b&gt;", "\u{e9}", "&#65;", "true", "12", "", "a", "item", "$text", "&e;", "x&p;y", "&nbsp;", "&empty;"];
 const INTS: &[&str] = &["0", "1", "42", "-7", "255", "256", "-129", "65536", "4294967296", "18446744073709551616", "+5", "1e3", " 12", "0x10", "-0"];
 const FLOATS: &[&str] = &["1.5", "-0", "NaN", "inf", "1e400", "3", "-2.5e-3", ".5", "1."];
 const BOOLS: &[&str] = &["true", "false", "1", "0", "True", "yes", "t"];
@@ -1261,7 +1261,7 @@ impl<'r> DocGen<'r> {
 pub fn gen_doc_for(rng: &mut Rng, shape: &Shape, shuffle_of_6: usize) -> String {
     let mut g = DocGen { rng, out: String::new(), budget: 90, shuffle_of_6 };
     if g.rng.chance(1, 6) {
-        g.out.push_str(*g.rng.pick(&["<?xml version=\"1.0\"?>", "<?xml version=\"1.0\" encoding=\"UTF-8\"?>\n", "<!DOCTYPE r>", "<!-- c -->", "\n", "\u{feff}"]));
+        g.out.push_str(*g.rng.pick(&["<?xml version=\"1.0\"?>", "<?xml version=\"1.0\" encoding=\"UTF-8\"?>\n", "<!DOCTYPE r>", "<!DOCTYPE r SYSTEM \"r.dtd\">", "<!DOCTYPE r [<!ENTITY e \"v\">]>", "<!-- c -->", "\n", "\u{feff}"]));
     }
     match shape {
         // the root element's name selects the variant
@@ -1310,6 +1310,45 @@ fn run_str(text: &str, len: usize) -> Out {
         Ok(Ok(Dyn)) => Out::Ok(take_trace()),
         Ok(Err(e)) => Out::Err(format!("{:?}", e)),
         Err(p) => Out::Panic(p),
+    }
+}
+
+/// a user-supplied entity resolver: knows a few names (one value contains markup
+/// characters), refuses DOCTYPEs that mention "SYSTEM"
+struct Resolver {
+    seen: usize,
+}
+#[derive(Debug)]
+struct DtdRefused;
+impl fmt::Display for DtdRefused {
+    fn fmt(&self, f: &mut fmt::Formatter) -> fmt::Result {
+        f.write_str("external subsets are not supported")
+    }
+}
+impl std::error::Error for DtdRefused {}
+impl quick_xml::de::EntityResolver for Resolver {
+    type Error = DtdRefused;
+    fn capture(&mut self, doctype: quick_xml::events::BytesText) -> Result<(), DtdRefused> {
+        self.seen += 1;
+        if doctype.windows(6).any(|w| w == b"SYSTEM") {
+            Err(DtdRefused)
+        } else {
+            Ok(())
+        }
+    }
+    fn resolve(&self, entity: &str) -> Option<&str> {
+        match entity {
+            "lt" => Some("<"),
+            "gt" => Some(">"),
+            "amp" => Some("&"),
+            "apos" => Some("'"),
+            "quot" => Some("\""),
+            "unknown" | "e" => Some("v"),
+            "bad" | "p" => Some("<b>&amp;</b>"),
+            "nbsp" => Some("\u{a0}"),
+            "empty" => Some(""),
+            _ => None,
+        }
     }
 }
 
@@ -1409,6 +1448,15 @@ impl Scenario for DynScen {
                 });
                 extra = r.err();
             }
+            if extra.is_none() && plan.run % 4 == 1 {
+                // a caller-supplied EntityResolver (knows more names, may refuse a DOCTYPE)
+                arm(plan.doc.len());
+                let r = guard(|| {
+                    let mut de = quick_xml::de::Deserializer::from_str_with_resolver(t, Resolver { seen: 0 });
+                    Sh(&shape).deserialize(&mut de).map(|_| ())
+                });
+                extra = r.err();
+            }
             #[cfg(feature = "enc")]
             {
                 if extra.is_none() {
@@ -1452,7 +1500,7 @@ impl Scenario for DynScen {
         for (which, r) in [
             ("from_str", a.as_ref()),
             ("from_reader", Some(&b)),
-            ("Deserializer::from_str used for several values / with event_buffer_size(1..4)", extra_out.as_ref()),
+            ("Deserializer::from_str used for several values / with a custom EntityResolver / with event_buffer_size(1..4)", extra_out.as_ref()),
         ] {
             match r {
                 Some(Out::Panic(p)) => match p.kind {
